@@ -162,7 +162,11 @@ def case(spec):
             if not args:
                 continue
             base_opts = ['--file', path] + pre
-            a = run([dfsbin] + base_opts + args, cwd=tmp, timeout=60)
+            # now and then the diagnostics cannot be written at all: that must not change stdout or the status either
+            errdev = '/dev/full' if rng.random() < 0.12 else None
+            if errdev:
+                res.add('runs_with_unwritable_stderr', 1)
+            a = run([dfsbin] + base_opts + args, cwd=tmp, timeout=60, stderr_path=errdev)
             res.execs += 1
             ka = clean_failure_key(a, (0, 1, 2))
             if ka:
@@ -186,7 +190,7 @@ def case(spec):
             for vname, opts in variants:
                 for f in os.listdir(dest):
                     os.unlink(os.path.join(dest, f))
-                b_ = run([dfsbin] + opts + args, cwd=tmp, timeout=60)
+                b_ = run([dfsbin] + opts + args, cwd=tmp, timeout=60, stderr_path=errdev)
                 res.execs += 1
                 res.events += 1
                 kb = clean_failure_key(b_, (0, 1, 2))
@@ -198,7 +202,7 @@ def case(spec):
                                   'stdout or exit status of %s changes with %s' % (args[0], vname),
                                   {'without': a.brief(), 'with': b_.brief()}, files, b_.argv)
                 if vname in ('--verbose', '--show-config', '--verbose+--show-config') and a.rc == 0 and not b_.err.strip() and kind == 'valid' \
-                        and 'show-config' in vname:
+                        and 'show-config' in vname and not errdev:
                     res.violation('show-config-silent', '--show-config printed nothing on stderr', b_.brief(), files, b_.argv)
                 res.sigs.append('%s|%s|%s|%d' % (kind, vname, args[0], idx))
             # ---------------- --ui and COLUMNS: layout only
